@@ -95,6 +95,15 @@ static val_t* fresh_input(prog_t* P) {
     for (uint64_t l = 0; l < size; l++) {
       int64_t c = rng_sbits(r, bits);
       if (P->ntt && (rng_u64(r) & 63) == 0) c = (rng_u64(r) & 1) ? INT64_MAX : INT64_MIN;
+      if (P->ntt && (rng_u64(r) & 15) == 1) {
+        // a multiple of one prime of the NTT120 modulus, or of the product of two, plus a small remainder: residues that coincide
+        static const uint64_t QS[4] = {Q1, Q2, Q3, Q4};
+        const uint64_t qa = QS[rng_u64(r) & 3], qb = QS[rng_u64(r) & 3];
+        const uint64_t rem = rng_u64(r) % 2000;
+        if (rng_u64(r) & 1) c = (int64_t)(qa * qb * (1 + rng_u64(r) % 7) + rem);   // (below 2^63: the primes are below 2^30)
+        else c = (int64_t)(qa * (rng_u64(r) >> 34) + rem);
+        if (rng_u64(r) & 1) c = -c;
+      }
       if (scaled) c = (int64_t)((uint64_t)rng_sbits(r, P->ntt ? 30 : 8) << 32);
       if (this_chain && l >= top) {
         const int64_t half = (int64_t)1 << (k - 1);
